@@ -7,4 +7,4 @@ import "time"
 // Built with -race (thorough tier) everything is several times slower, and the conversations run 64
 // at a time: the bound of the harness's waits (reached only when the server deviates) is raised so
 // that slowness is not mistaken for a deviation.
-func init() { waitT = 30 * time.Second; muteBound = 6 * time.Second }
+func init() { waitT = 30 * time.Second; muteBound = 12 * time.Second }
